@@ -1390,3 +1390,65 @@ func respIterContract(c *cx, id string) {
 		c.r.Floor(id, "underlying Close calls in respiter", n, 1)
 	}
 }
+
+// decoderLoopVisitsEveryChild (E-dec7): a hand-written token loop that fills a
+// value from the children of an element looks at every child: inside the arm
+// of a child start element there is no return whose error may be nil - the
+// loop ends at the parent's end tag (or a read error), not after a particular
+// child. "This child is always the last one" is a belief about the peer: the
+// library's own encoders write other children after it (stream.Error writes
+// its application condition before the texts), and everything behind the
+// child is silently dropped from the decoded value.
+func decoderLoopVisitsEveryChild(c *cx, id string, in func(f *eng.Fn) bool) int {
+	n := 0
+	for _, f := range c.allFns() {
+		if f.Body == nil || !in(f) {
+			continue
+		}
+		g := f.Graph()
+		for _, tk := range f.Calls("encoding/xml.Decoder.Token") {
+			tp, ok := g.Where(tk)
+			if !ok || !g.Reachable(g.After(tp), tp, nil, nil) {
+				continue // not in a loop
+			}
+			isTok := func(q eng.Point, nd ast.Node) bool {
+				hit := false
+				ast.Inspect(nd, func(x ast.Node) bool {
+					if x == ast.Node(tk) {
+						hit = true
+					}
+					return !hit
+				})
+				return hit
+			}
+			for _, ce := range g.CondEdges() {
+				isStart := false
+				for _, a := range ce.Atoms {
+					if eng.Glob("istype(*;encoding/xml.StartElement)", a.S) || eng.Glob("commaok(*.(encoding/xml.StartElement))", a.S) {
+						isStart = true
+					}
+				}
+				if !isStart || !g.Reachable(g.After(tp), eng.Point{B: ce.E.B, I: 0}, nil, nil) {
+					continue
+				}
+				n++
+				from := g.EdgeTarget(ce.E)
+				bad := ""
+				for _, rs := range g.Returns {
+					if g.RetKindOf(rs) == eng.RetError || c.p.Enclosing(rs.Pos()) != f {
+						continue
+					}
+					rp, _ := g.Where(rs)
+					if eof, _ := g.Dominated(rp, "eq(*,var:io.EOF)"); eof {
+						continue // the input ended with this child
+					}
+					if g.Reachable(from, rp, nil, isTok) {
+						bad = "the return at " + c.p.Pos(rs.Pos()) + " may end the loop with a nil error from inside a child's arm: the children behind it are never looked at"
+					}
+				}
+				c.r.Check(id, f, "the token loop ends at the end tag, not after a child", "E-dec7: inside the arm of a child start element no return may yield a nil error (every child is visited)", g.Blocks[ce.E.B].Nodes[len(g.Blocks[ce.E.B].Nodes)-1].Pos(), bad == "", bad)
+			}
+		}
+	}
+	return n
+}
